@@ -7,9 +7,10 @@
 //   cpp.rb1 TYPE HEX [ignored…]  -> same, boxed
 //   cpp.rr  TYPE ARGHEX HEX      -> same, function result (arguments read bare from ARGHEX first)
 //
-// Each read/write case is executed twice, through the non-throwing streams (`bool read(tl_istream&)`) and through the
-// throwing ones (`void read(tl_throwable_istream&)`); when both give the same observation it is printed once, otherwise
-// both are printed behind `DIFFERS`. `oklatched` marks a non-throwing read that returned true although the stream has
+// Each read/write case is executed three times: through the non-throwing streams (`bool read(tl_istream&)`) over a
+// whole-buffer connector, through the throwing ones (`void read(tl_throwable_istream&)`), and through the non-throwing
+// streams over connectors that hand out windows of 1..61 bytes (block-crossing paths of io_streams.cpp); when all give
+// the same observation it is printed once, otherwise all are printed behind `DIFFERS`. `oklatched` marks a non-throwing read that returned true although the stream has
 // an error latched. Lines are processed in a forked child with an address-space limit and a per-line alarm, so that a
 // crash, an uncaught exception in a noexcept function, a runaway allocation (address space is limited to 64 MiB above the driver's own) or a
 // non-terminating loop (10 s of CPU time) costs one line (`crash` / `timeout`).
@@ -19,6 +20,7 @@
 #include <sys/wait.h>
 #include <unistd.h>
 
+#include <algorithm>
 #include <csignal>
 #include <cstdio>
 #include <cstring>
@@ -71,14 +73,53 @@ static bool from_hex(const std::string &s, std::string &out) {
 
 enum Mode { BARE, BOXED, RESULT };
 
+// Connectors that hand out the input / take the output in windows of at most `k` bytes, so that the block-crossing slow
+// paths of io_streams.cpp (fetch_data2, fetch_data_append, fetch_pad, store_data2, store_pad) are driven as well.
+class chunk_in final : public bt::tl_input_connector {
+public:
+    chunk_in(const std::string &d, size_t k) : data(d), k(k) {}
+    bt::tl_connector_result<std::span<const std::byte>> get_buffer() noexcept override {
+        size_t n = std::min(k, data.size() - pos);
+        return bt::tl_connector_result(std::span<const std::byte>{reinterpret_cast<const std::byte *>(data.data()) + pos, n});
+    }
+    void advance(size_t size) noexcept override { pos += size; }
+    size_t used() const { return pos; }
+
+private:
+    const std::string &data;
+    size_t k;
+    size_t pos = 0;
+};
+
+class chunk_out final : public bt::tl_output_connector {
+public:
+    explicit chunk_out(size_t k) : k(k) {}
+    bt::tl_connector_result<std::span<std::byte>> get_buffer() noexcept override {
+        if (buf.size() < pos + k) buf.resize(pos + k);
+        return bt::tl_connector_result(std::span<std::byte>{reinterpret_cast<std::byte *>(buf.data()) + pos, k});
+    }
+    void advance(size_t size) noexcept override { pos += size; }
+    std::span<const std::byte> used_buffer() const { return {reinterpret_cast<const std::byte *>(buf.data()), pos}; }
+
+private:
+    std::string buf;
+    size_t k;
+    size_t pos = 0;
+};
+
 // a case that burns more CPU time than this (ITIMER_PROF, so machine load does not matter) is reported as `timeout`;
 // the wall-clock alarm is only a backstop against a blocked process
 static const unsigned LINE_CPU_S = 10;
 static const unsigned LINE_WALL_S = 300;
 static const unsigned long AS_HEADROOM = 64ul << 20;  // on top of what the process already maps
 
-// non-throwing streams
-static std::string run_nt(const ::tlgen::meta::tl_item &item, Mode mode, const std::string &args, const std::string &data) {
+static size_t in_used(bt::tl_istream_string &c) { return c.used_buffer().size(); }
+static size_t in_used(chunk_in &c) { return c.used(); }
+
+// non-throwing streams; IC/OC are the connector types (whole-buffer string connectors or the chunked ones)
+template <class IC, class OC>
+static std::string run_nt(const ::tlgen::meta::tl_item &item, Mode mode, const std::string &args, const std::string &data,
+                          IC &ic, OC &oc) {
     try {
         std::unique_ptr<::tlgen::meta::tl_object> obj;
         std::unique_ptr<::tlgen::meta::tl_function> fn;
@@ -90,9 +131,6 @@ static std::string run_nt(const ::tlgen::meta::tl_item &item, Mode mode, const s
         } else {
             obj = item.create_object();
         }
-        bt::tl_istream_string ic{data};
-        std::string outbuf;
-        bt::tl_ostream_string oc{outbuf};
         bool r = false, w = true, latched = false;
         size_t used = 0;
         if (mode == RESULT) {
@@ -102,7 +140,7 @@ static std::string run_nt(const ::tlgen::meta::tl_item &item, Mode mode, const s
             latched = in.has_error() || out.has_error();
             in.sync();
             out.sync();
-            used = ic.used_buffer().size();
+            used = in_used(ic);
             // read_write_result does not tell a read failure from a write failure; both are `err`
         } else {
             {
@@ -110,7 +148,7 @@ static std::string run_nt(const ::tlgen::meta::tl_item &item, Mode mode, const s
                 r = mode == BOXED ? obj->read_boxed(in) : obj->read(in);
                 latched = in.has_error();
                 in.sync();
-                used = ic.used_buffer().size();
+                used = in_used(ic);
             }
             if (r) {
                 bt::tl_ostream out{oc};
@@ -169,6 +207,34 @@ static std::string run_th(const ::tlgen::meta::tl_item &item, Mode mode, const s
     return os.str();
 }
 
+// window size of the chunked flavour: a deterministic function of the case line
+static size_t chunk_size(const std::string &line) {
+    static const size_t ks[] = {1, 2, 3, 4, 5, 7, 8, 13, 16, 61};
+    size_t h = 1469598103u;
+    for (unsigned char ch : line) h = (h ^ ch) * 16777619u;
+    return ks[(h >> 7) % (sizeof ks / sizeof ks[0])];
+}
+
+static std::string three(const ::tlgen::meta::tl_item &item, Mode mode, const std::string &args, const std::string &data,
+                         const std::string &line) {
+    std::string a, b, ck;
+    {
+        bt::tl_istream_string ic{data};
+        std::string outbuf;
+        bt::tl_ostream_string oc{outbuf};
+        a = run_nt(item, mode, args, data, ic, oc);
+    }
+    b = mode == RESULT ? a : run_th(item, mode, data);
+    {
+        size_t k = chunk_size(line);
+        chunk_in ic{data, k};
+        chunk_out oc{k};
+        ck = run_nt(item, mode, args, data, ic, oc);
+    }
+    if (a == b && a == ck) return a;
+    return "DIFFERS nt=[" + a + "] th=[" + b + "] ck=[" + ck + "]";
+}
+
 static std::vector<std::string> fields(const std::string &l) {
     std::vector<std::string> f;
     std::istringstream is(l);
@@ -194,17 +260,14 @@ static std::string handle(const std::string &line) {
         auto it = ::tlgen::meta::get_item_by_name(std::string(f[1]));
         if (!it.has_value() || !it->has_create_object) return "bad-type";
         Mode m = rb1 ? BOXED : BARE;
-        std::string a = run_nt(*it, m, "", data);
-        std::string b = run_th(*it, m, data);
-        if (a == b) return a;
-        return "DIFFERS nt=[" + a + "] th=[" + b + "]";
+        return three(*it, m, "", data, line);
     }
     if (rr && f.size() == 4) {
         std::string args, data;
         if (!from_hex(f[2], args) || !from_hex(f[3], data)) return "bad-op";
         auto it = ::tlgen::meta::get_item_by_name(std::string(f[1]));
         if (!it.has_value() || !it->has_create_function) return "bad-type";
-        return run_nt(*it, RESULT, args, data);
+        return three(*it, RESULT, args, data, line);
     }
     return "bad-op";
 }
